@@ -163,10 +163,32 @@ def exc_form(e):
             [:300])
 
 
+def pretty(v):
+    """Readable JSON-able rendering (lossy; for evidence samples)."""
+    if v is None or isinstance(v, (bool, int)):
+        return v
+    if isinstance(v, float):
+        return v if v == v and abs(v) != float('inf') else repr(v)
+    if isinstance(v, str):
+        try:
+            v.encode('utf-8')
+            return v
+        except UnicodeEncodeError:
+            return repr(v)
+    if isinstance(v, (bytes, bytearray, memoryview)):
+        return '%s:%s' % (type(v).__name__, bytes(v).hex())
+    if isinstance(v, dict):
+        return {(k if isinstance(k, str) else repr(k)): pretty(x)
+                for k, x in v.items()}
+    if isinstance(v, (list, tuple, set, frozenset)):
+        return [pretty(x) for x in v]
+    return repr(v)
+
+
 def brief(v, limit=400):
     """Short JSON-able rendering for evidence samples."""
-    j = dump(v)
+    j = pretty(v)
     s = json.dumps(j, sort_keys=True)
     if len(s) <= limit:
         return j
-    return {'$truncated': s[:limit], 'len': len(s)}
+    return {'truncated': s[:limit], 'len': len(s)}
